@@ -25,11 +25,11 @@ type c14Layout struct {
 }
 
 func runC14(c *fw.Ctx) {
-	comps := []string{"refs", "heads", "a", "..", ".", "", "config", "index", "objects", "HEAD", "ORIG_HEAD", "..\\x", "a\\..", ".. ", "..‌", "A~1", "a::$DATA", "C:", "\x01", "logs", "packed-refs", "..."}
+	comps := []string{"refs", "heads", "a", "..", ".", "", "config", "index", "objects", "HEAD", "ORIG_HEAD", "..\\x", "a\\..", ".. ", "..‌", "‌..", "\ufeff.\ufeff.", ".‌.", "A~1", "a::$DATA", "C:", "\x01", "logs", "packed-refs", "..."}
 	maxComp := c.Pick(2, 3)
 	c.Bound("components", comps)
 	c.Bound("max_components", maxComp)
-	c.SetRule("names = every sequence of <= max_components components (quick adds all 3-component names starting with refs) joined by '/' and by '\\\\', also with a leading '/'; x 9 storage operations (Reference, SetReference, CheckAndSetReference, RemoveReference, IterReferences, PackRefs, Reflog, AppendReflog, DeleteReflog) run in sequence on a fresh mcfs repository x 3 layouts (plain; .git/refs a symlink to ../../outside/refs; .git/logs a symlink); oracle = the mcfs journal of EVERY call (reads included, paths after symlink resolution): each touched path lies in the resolved refs/ or logs/ hierarchy, packed-refs (+ its temp file), an ALL-CAPS pseudo-ref slot of .git, or in the set a benign name (refs/heads/ok) touches on the same layout; sentinel files (config, index, an object, /outside/x, a worktree file) are byte-identical afterwards; distinct = (operation, accepted/refused, layout, touched-path set) classes")
+	c.SetRule("names = every sequence of <= max_components components (quick adds all 3-component names starting with refs) joined by '/' and by '\\\\', also with a leading '/'; x 9 storage operations (Reference, SetReference, CheckAndSetReference, RemoveReference, IterReferences, PackRefs, Reflog, AppendReflog, DeleteReflog) run in sequence on a fresh mcfs repository x 3 layouts (plain; .git/refs a symlink to ../../outside/refs; .git/logs a symlink); oracle = the mcfs journal of EVERY call (reads included, paths after symlink resolution): each touched path lies in the resolved refs/ or logs/ hierarchy, packed-refs (+ its temp file), an ALL-CAPS pseudo-ref slot of .git, or in the set a benign name (refs/heads/ok) touches on the same layout; sentinel files (config, index, an object, /outside/x, a worktree file) are byte-identical afterwards; and every name with a component that folds to '.' or '..' on HFS+/NTFS (ignorable code points, trailing dots/spaces) is refused by every name-taking operation; distinct = (operation, accepted/refused, layout, touched-path set) classes")
 	c.Assume("mcfs resolves symlinks without confinement (classic OS semantics) and is case-sensitive; replayed against osfs each run")
 	n, err := mcfs.Conformance(c.Scratch(), 2)
 	c.Must(err, "mcfs/osfs conformance")
@@ -206,6 +206,26 @@ func runC14(c *fw.Ctx) {
 			}
 			return
 		}
+		// second clause of the statement: names that could resolve elsewhere are refused. A component that a
+		// case-/normalisation-folding filesystem (HFS+ ignorable code points, NTFS trailing dots and spaces)
+		// maps to "." or ".." could resolve elsewhere although mcfs itself keeps it literal.
+		mustRefuse := func(name string) bool {
+			for _, comp := range strings.FieldsFunc(name, func(r rune) bool { return r == '/' || r == '\\' }) {
+				var sb strings.Builder
+				for _, r := range comp {
+					switch {
+					case r == 0x200c || r == 0x200d || r == 0x200e || r == 0x200f || (r >= 0x202a && r <= 0x202e) || (r >= 0x206a && r <= 0x206f) || r == 0xfeff:
+					default:
+						sb.WriteRune(r)
+					}
+				}
+				n := strings.TrimRight(sb.String(), " .")
+				if sb.String() == ".." || sb.String() == "." || (n == "" && sb.Len() > 0 && strings.Contains(sb.String(), ".")) {
+					return true
+				}
+			}
+			return false
+		}
 		_, baseTouched, _ := run("refs/heads/ok")
 		baseline := map[string]bool{}
 		for _, t := range baseTouched {
@@ -216,6 +236,16 @@ func runC14(c *fw.Ctx) {
 			name := names[i]
 			res, touched, changed := run(name)
 			c.Evals(len(ops))
+			if mustRefuse(name) {
+				for _, r := range res {
+					op := strings.SplitN(r, "=", 2)[0]
+					if strings.HasSuffix(r, "=ok") && op != "IterReferences" && op != "PackRefs" {
+						c.Fail(op+" accepts a name with a component that folds to . or ..",
+							fmt.Sprintf("%s(%s) on layout %s succeeds although a component of the name is '.' or '..' once HFS+-ignorable code points / NTFS trailing dots and spaces are dropped", op, fw.Q(name), lay.name),
+							map[string]any{"name": name, "layout": lay.name, "op": op})
+					}
+				}
+			}
 			var esc []string
 			for _, t := range touched {
 				if t.kind == "panic" {
